@@ -6,8 +6,8 @@
 
     Theorems 1, 2, 3 hold for ANY signature scheme: [sdeser] (signature.Deserialize) and [sverify]
     (signature.Verify, which may answer true, false or panic) are universally quantified, as are
-    the key deserializer and the two address hashes.  Theorems 4-8 are about the abstract
-    signatures of DESIGN section 2 (a signature IS the pair (signer, message): unforgeability is
+    the key deserializer and the two address hashes (so are c16_bad_signature_rejected and
+    c16_no_crash).  Theorems 4-7 and 9 are about the abstract signatures of DESIGN section 2 (a signature IS the pair (signer, message): unforgeability is
     part of the model and listed in the trusted base).
 
     The transaction hash is a field of the validator's input here; that it is
@@ -16,7 +16,7 @@
 From Coq Require Import List Bool NArith ZArith Lia.
 Import ListNotations.
 From Ont Require Import Lib.Bytes Model.Codec Gen.ProgramConsts Model.Program Model.Sig.
-From Ont Require Import Proofs.Sig Proofs.SigAbs.
+From Ont Require Import Proofs.Sig Proofs.SigTotal Proofs.SigAbs.
 From Ont Require Gen.TxConsts Model.TxCodec Proofs.TxCodec.
 From Ont Require Import Model.SigTx Proofs.SigTx.
 Local Open Scope N_scope.
@@ -116,12 +116,17 @@ Theorem c16_hash_mutation_not_accepted :
 Proof. exact hash_mutation_not_accepted_proof. Qed.
 Print Assumptions c16_hash_mutation_not_accepted.
 
-(** 7. mutation_rejected, a counted signature / the hash.  FULL statement ("... makes it
-    rejected"): an Ontology-format transaction in which a counted signature of some set is not a
-    signature over the transaction hash by any of that set's keys is rejected; the signatures of an
-    accepted transaction under another hash are rejected. *)
-Definition c16_mutation_rejected : Prop :=
-  forall weak deser sdeser H Keth t,
+(** 7. mutation_rejected ("... makes it REJECTED": the validator returns an error), FULL statement,
+    proved since the repair c4422b91 (core/signature calls the crypto library's Verify under a
+    recover; before it the statement was refuted by two panic classes, now regression probes in
+    corpus/C16).  [deser_sane]: every key the key deserializer returns has a serialization of
+    1..2^32-1 bytes (true of keypair.DeserializePublicKey: 33..133 bytes).
+    (a) an Ontology-format transaction in which a counted signature of some set is not a signature
+        over the transaction hash by any of that set's keys is rejected;
+    (b) the signatures of an accepted transaction under another hash (any payer) are rejected. *)
+Theorem c16_mutation_rejected :
+  forall weak deser sdeser H Keth, deser_sane deser ->
+  forall t,
   (forall r ss i sb,
      v_eip t = false -> In r (v_sigs t) -> get_sig deser r = inl ss ->
      (i < N.to_nat (ss_m ss))%nat -> nth_error (ss_sigdata ss) i = Some sb ->
@@ -130,77 +135,55 @@ Definition c16_mutation_rejected : Prop :=
   (forall addrs h' p',
      check_transaction_signatures deser asig sdeser (abs_verify weak) H Keth t = VAccept addrs -> h' <> v_hash t ->
      exists e, check_transaction_signatures deser asig sdeser (abs_verify weak) H Keth (mkVtx false h' p' (v_sigs t)) = VReject e).
+Proof.
+  intros weak deser sdeser H Keth Sane t. split.
+  - intros r ss i sb Eip Hr G Hi Hs Bad. eapply signature_mutation_rejected_proof; eassumption.
+  - intros addrs h' p' E N. eapply hash_mutation_rejected_proof; eassumption.
+Qed.
+Print Assumptions c16_mutation_rejected.
 
-(** It is REFUTED by the model of the current code: in two classes the validator does not return
-    at all - the crypto library's Verify panics (known findings of C16, replayed on the
-    implementation by the driver on every run):
-    (a) `panic:eth-key-short-signature`: an Ethereum-style key in the verification script and a
-        KECCAK256WithECDSA signature value shorter than 64 bytes (Verify slices sig[:64]);
-    (b) `panic:off-curve-key`: an EC key given in uncompressed form with a point that is not on its
-        curve (DecodePublicKey does not check) and a signature whose (r, s) reach Go's curve
-        arithmetic ("attempted operation on invalid point"). *)
+(** ... and for ANY signature scheme (Verify may panic; the wrapper recovers): a counted signature
+    that verifies under no key of its set makes the transaction rejected. *)
+Theorem c16_bad_signature_rejected :
+  forall deser sigT sdeser sverify H Keth, deser_sane deser ->
+  forall t r ss i sb,
+  v_eip t = false -> In r (v_sigs t) -> get_sig deser r = inl ss ->
+  (i < N.to_nat (ss_m ss))%nat -> nth_error (ss_sigdata ss) i = Some sb ->
+  (forall k, In k (ss_keys ss) -> ~ verifies sigT sdeser sverify k (v_hash t) sb) ->
+  exists e, check_transaction_signatures deser sigT sdeser sverify H Keth t = VReject e.
+Proof. exact bad_signature_rejected_proof. Qed.
+Print Assumptions c16_bad_signature_rejected.
+
+(** 8. The validator never panics, whatever the crypto library's Verify does (true, false, panic):
+    the only panic sites left in the model are the index expressions sig.PubKeys[0],
+    sig.SigData[0], sigs[i] (excluded by the guards, proved here) and PushBytes of an empty key
+    serialization (excluded by [deser_sane]).  GetProgramInfo / GetParamInfo are total on all
+    byte strings (c23_parser_total). *)
+Theorem c16_no_crash :
+  forall deser sigT sdeser sverify H Keth, deser_sane deser ->
+  forall t, check_transaction_signatures deser sigT sdeser sverify H Keth t <> VCrash.
+Proof. exact no_crash_proof. Qed.
+Print Assumptions c16_no_crash.
+
+(** The two former crash witnesses, in the model of the repaired code: the library's Verify
+    panics ([SigEthShort] with an Ethereum-style key; a [weak] key with a signature that reaches
+    the curve arithmetic), the validator answers "signature verification failed". *)
 Definition w_keth : pubkey := mkKey PK_ETHECDSA 0 7 9 [21; 4; 7; 9].
 Definition w_deser (b : bytes) : option pubkey := if bytes_eqb b (pk_ser w_keth) then Some w_keth else None.
 Definition w_sdeser (b : bytes) : option asig := if bytes_eqb b [11; 1; 2] then Some SigEthShort else None.
 Definition w_tx : vtx := mkVtx false [1; 2; 3] [9] [mkRawSig [3; 11; 1; 2] [4; 21; 4; 7; 9; 172]].
-
-Theorem c16_mutation_rejected_refuted : ~ c16_mutation_rejected.
-Proof.
-  intro F.
-  destruct (F (fun _ => false) w_deser w_sdeser (fun b => b) (fun b => b) w_tx) as (F1 & _).
-  destruct (F1 (mkRawSig [3; 11; 1; 2] [4; 21; 4; 7; 9; 172]) (mkSigSet [[11; 1; 2]] [w_keth] 1) 0%nat [11; 1; 2]) as (e & E).
-  - reflexivity.
-  - left. reflexivity.
-  - vm_compute. reflexivity.
-  - vm_compute. lia.
-  - reflexivity.
-  - intros k _ (k' & pc & D & _). vm_compute in D. discriminate.
-  - vm_compute in E. discriminate.
-Qed.
-Print Assumptions c16_mutation_rejected_refuted.
-
-(** The second class: a weak (off-curve) ECDSA key on curve 20 (sm2p256v1) and a junk ECDSA
-    signature with in-range (r, s). *)
 Definition w_kweak : pubkey := mkKey PK_ECDSA 20 7 5 [18; 20; 2; 7].
 Definition w2_weak (k : pubkey) : bool := pubkey_eqb k w_kweak.
 Definition w2_deser (b : bytes) : option pubkey := if bytes_eqb b [18; 20; 4; 7; 5] then Some w_kweak else None.
 Definition w2_sdeser (b : bytes) : option asig := if bytes_eqb b [1; 1; 1] then Some (SigJunk [20]) else None.
 Definition w2_tx : vtx := mkVtx false [1; 2; 3] [9] [mkRawSig [3; 1; 1; 1] [5; 18; 20; 4; 7; 5; 172]].
 
-Example c16_off_curve_key_crash_witness :
-  check_transaction_signatures w2_deser asig w2_sdeser (abs_verify w2_weak) (fun b => b) (fun b => b) w2_tx = VCrash.
-Proof. vm_compute. reflexivity. Qed.
-
-(** PARTIAL (everything outside those two classes): if no set with an Ethereum-style key carries a
-    short KECCAK-scheme signature ([no_eth_short]), no parsed key is an off-curve point
-    ([no_weak_key]) and the parsed keys have serializations of 1..2^32-1 bytes ([keys_sane], true
-    of every key DeserializePublicKey returns), the validator never panics and both parts of
-    statement 7 hold. *)
-Theorem c16_mutation_rejected_partial :
-  forall weak deser sdeser H Keth t,
-  keys_sane deser t -> no_eth_short deser sdeser t -> no_weak_key weak deser t ->
-  (forall r ss i sb,
-     v_eip t = false -> In r (v_sigs t) -> get_sig deser r = inl ss ->
-     (i < N.to_nat (ss_m ss))%nat -> nth_error (ss_sigdata ss) i = Some sb ->
-     (forall k, In k (ss_keys ss) -> ~ signed_by sdeser k (v_hash t) sb) ->
-     exists e, check_transaction_signatures deser asig sdeser (abs_verify weak) H Keth t = VReject e) /\
-  (forall addrs h' p',
-     check_transaction_signatures deser asig sdeser (abs_verify weak) H Keth t = VAccept addrs -> h' <> v_hash t ->
-     exists e, check_transaction_signatures deser asig sdeser (abs_verify weak) H Keth (mkVtx false h' p' (v_sigs t)) = VReject e).
-Proof.
-  intros weak deser sdeser H Keth t Sane NoShort NoWeak. split.
-  - intros r ss i sb Eip Hr G Hi Hs Bad. eapply signature_mutation_rejected_partial_proof; eassumption.
-  - intros addrs h' p' E N. eapply hash_mutation_rejected_partial_proof; eassumption.
-Qed.
-Print Assumptions c16_mutation_rejected_partial.
-
-(** 8. The validator panics ONLY in those two classes. *)
-Theorem c16_no_crash_partial :
-  forall weak deser sdeser H Keth t,
-  keys_sane deser t -> no_eth_short deser sdeser t -> no_weak_key weak deser t ->
-  check_transaction_signatures deser asig sdeser (abs_verify weak) H Keth t <> VCrash.
-Proof. exact no_crash_proof. Qed.
-Print Assumptions c16_no_crash_partial.
+Example c16_former_crash_witnesses_rejected :
+  abs_verify (fun _ => false) w_keth [1; 2; 3] SigEthShort = VPanic /\
+  check_transaction_signatures w_deser asig w_sdeser (abs_verify (fun _ => false)) (fun b => b) (fun b => b) w_tx = VReject VESingle /\
+  abs_verify w2_weak w_kweak [1; 2; 3] (SigJunk [20]) = VPanic /\
+  check_transaction_signatures w2_deser asig w2_sdeser (abs_verify w2_weak) (fun b => b) (fun b => b) w2_tx = VReject VESingle.
+Proof. repeat split; vm_compute; reflexivity. Qed.
 
 (** 9. On transaction BYTES (decoder of C19 composed with the validator): two inputs that decode
     to Ontology-format transactions carrying the same signature section but different signed
@@ -262,15 +245,9 @@ Example c16_nonvacuous :
   ex_run (ex_tx [[100; 2]; [100; 2]] [[100; 3]] ex_h (ex_H ex_single)) = VReject VEMulti /\
   ex_run (ex_tx [[100; 2]] [[100; 3]] ex_h (ex_H ex_single)) = VReject VEParamLen /\
   ex_run (ex_tx [[100; 2]; [100; 0]] [[100; 1]] ex_h (ex_H ex_single)) = VReject VESingle /\
-  keys_sane ex_deser (ex_tx [[100; 2]; [100; 0]] [[100; 3]] ex_h (ex_H ex_single)) /\
-  no_eth_short ex_deser ex_sdeser (ex_tx [[100; 2]; [100; 0]] [[100; 3]] ex_h (ex_H ex_single)) /\
-  no_weak_key ex_weak ex_deser (ex_tx [[100; 2]; [100; 0]] [[100; 3]] ex_h (ex_H ex_single)).
+  deser_sane ex_deser.
 Proof.
   do 7 (split; [vm_compute; reflexivity|]).
-  split; [|split].
-  - intros r ss k [<-|[<-|[]]] G Hk; vm_compute in G; injection G as <-; cbn [ss_keys] in Hk;
-      repeat (destruct Hk as [<-|Hk]; [split; [discriminate|vm_compute; reflexivity]|]); destruct Hk.
-  - intros r ss sb k [<-|[<-|[]]] G Hs Hk D; vm_compute in G; injection G as <-; cbn [ss_sigdata] in Hs;
-      repeat (destruct Hs as [<-|Hs]; [vm_compute in D; discriminate|]); destruct Hs.
-  - intros r ss k _ _ _. reflexivity.
+  intros b k D. unfold ex_deser in D. apply find_some in D. destruct D as [Hk _].
+  repeat (destruct Hk as [<-|Hk]; [split; [discriminate|vm_compute; reflexivity]|]). destruct Hk.
 Qed.
